@@ -381,8 +381,15 @@ async def reduce(  # type: ignore[misc]
 
         async for element in async_it:
             value = await function(value, element)
-    elif isinstance(iterable, Iterable):
-        it = iter(iterable)
+    else:
+        try:
+            # iter() also accepts objects that only implement the sequence protocol
+            it = iter(iterable)
+        except TypeError:
+            raise TypeError(
+                "reduce() argument 2 must be an iterable or async iterable"
+            ) from None
+
         if initial is initial_missing:
             try:
                 value = cast(T, next(it))
@@ -395,8 +402,6 @@ async def reduce(  # type: ignore[misc]
 
         for element in it:
             value = await function(value, element)
-    else:
-        raise TypeError("reduce() argument 2 must be an iterable or async iterable")
 
     # Make sure the event loop gets to run at least once, even if neither the iterable nor
     # the function yielded control to it (the result is kept, hence the shielding)
